@@ -1293,3 +1293,26 @@ class Sim:
 
     def global_env(self, env):
         return {k: v for k, v in env.items() if k[0] not in '$%&' and self.is_global(k)}
+
+
+class Borrowed:
+    """A view of a check context through which a rule function of another property module can be run for this
+    property: obligations it records under its own rule id are recorded under ours (only the instances `keep`
+    accepts), everything else (program, exemptions, notes) is the real context.  The borrowed function is not
+    changed and keeps its meaning; an anchor it misses raises AnalysisBroken through to our section."""
+
+    def __init__(self, ctx, rid_map, keep=None):
+        self._ctx = ctx
+        self._map = dict(rid_map)
+        self._keep = keep or (lambda instance: True)
+
+    def __getattr__(self, name):
+        return getattr(self._ctx, name)
+
+    def ob(self, rid, instance, ok, **kw):
+        if rid in self._map and self._keep(instance):
+            self._ctx.ob(self._map[rid], instance, ok, **kw)
+
+    def exempt(self, rid, instance, reason):
+        if rid in self._map and self._keep(instance):
+            self._ctx.exempt(self._map[rid], instance, reason)
